@@ -13,6 +13,9 @@
 //	valid  earlier encodings re-spaced with random whitespace (every byte < 33), 1..4 of them
 //	       on ONE Decoder, each call Decode(&interface{}) or nextValueBytes (Decode(&Raw) /
 //	       the hook), one more call after the last document (CSeq).
+//	hand   hand-written-style documents written from the grammar (hand.go): white-space runs around
+//	       all tokens, every number / string literal shape, one Decode(&interface{}) (CSeq) plus a
+//	       direct oracle on acceptance and data (property C09, reading direction).
 //	mut    one or two edits of a valid document, 2 calls (CSeq).
 //	rand   short inputs over a json-ish alphabet, up to 3 calls, and a list of crafted inputs
 //	       under several decode options (CSeq).
@@ -2154,6 +2157,7 @@ func (c *ctx) deepStream(dir string, big int) {
 func main() {
 	nEnc := flag.Int("enc", 300, "encoder cases")
 	nValid := flag.Int("valid", 150, "sequences of re-spaced valid documents")
+	nHand := flag.Int("hand", 120, "hand-written-style documents (grammar-generated text)")
 	nMut := flag.Int("mut", 300, "mutated documents")
 	nRand := flag.Int("rand", 200, "raw random inputs")
 	big := flag.Int("big", 3000000, "nesting depth of the deep cases")
@@ -2170,12 +2174,14 @@ func main() {
 	}
 	seed := vh.SeedFromEnv()
 	r := vh.NewRng(seed)
-	sum := vh.NewSummary("enc: random item trees of depth <= 3 (int/uint at 0, +-1, +-2^53, +-(2^53+1), int64/uint64 limits; float32/64 incl. +-0, 1e-7/1e20/1e21 format switches, subnormals, NaN/Inf; strings over ASCII, html and control bytes, multi-byte and invalid UTF-8, number/bool look-alikes; []byte; time; typed slices, real maps and MapBySlice) -> ONE Encode under random Indent x IntegerAsString x HTMLCharsAsIs x TermWhitespace x MapKeyAsString x BytesFormat x StringToRaw -> bytes vs model enc_top (CEnc), plus direct oracles (naked decode reads the value back and stops behind it, Raw captures exactly the value, unknown-field skip is exact, encoding/json.Valid). valid: 1..4 re-spaced encodings (any byte < 33 as whitespace) on ONE Decoder, each call Decode(&interface{}) or nextValueBytes (Decode(&Raw) and the hook alternate), plus one call at the end (CSeq: class, NumBytesRead, tree / bytes per call) and the oracle that a separated stream decodes document by document. mut: one or two edits (byte change/remove/insert, bracket unbalance, closer swap, separator drop/double, truncation, backslash before a quote), 2 calls. rand: <= 24 bytes over a json alphabet, <= 3 calls; crafted: fixed malformed / boundary inputs under 4 option sets. first: 256 first bytes x 9 tails, one call. regr: the repaired FWjson-1 inputs. deep: subprocess (SetMaxStack 64MB) nesting cases. non-trivial = input longer than one byte; distinct by (stream, first byte, per-call mode and outcome class, min(length,40)) resp. (Go type, options, length/4, depth) for enc and by name for regr/deep")
+	sum := vh.NewSummary("enc: random item trees of depth <= 3 (int/uint at 0, +-1, +-2^53, +-(2^53+1), int64/uint64 limits; float32/64 incl. +-0, 1e-7/1e20/1e21 format switches, subnormals, NaN/Inf; strings over ASCII, html and control bytes, multi-byte and invalid UTF-8, number/bool look-alikes; []byte; time; typed slices, real maps and MapBySlice) -> ONE Encode under random Indent x IntegerAsString x HTMLCharsAsIs x TermWhitespace x MapKeyAsString x BytesFormat x StringToRaw -> bytes vs model enc_top (CEnc), plus direct oracles (naked decode reads the value back and stops behind it, Raw captures exactly the value, unknown-field skip is exact, encoding/json.Valid). valid: 1..4 re-spaced encodings (any byte < 33 as whitespace) on ONE Decoder, each call Decode(&interface{}) or nextValueBytes (Decode(&Raw) and the hook alternate), plus one call at the end (CSeq: class, NumBytesRead, tree / bytes per call) and the oracle that a separated stream decodes document by document. hand: documents WRITTEN FROM THE GRAMMAR (runs of the four RFC 8259 white-space bytes around all tokens, members in random order, number literals of every shape incl. -0, e/E, signs, 64-bit boundaries and out-of-range exponents, string literals of raw UTF-8, two-character escapes and \\u escapes incl. surrogate pairs and lone surrogates, F09-2r class excluded), one Decode(&interface{}) (CSeq) plus the direct oracle: nesting below MaxDepth and numbers in range => accepted, strings as denoted, numbers as the Go type of the number-kind rule with exact value / strconv bits, members complete. mut: one or two edits (byte change/remove/insert, bracket unbalance, closer swap, separator drop/double, truncation, backslash before a quote), 2 calls. rand: <= 24 bytes over a json alphabet, <= 3 calls; crafted: fixed malformed / boundary inputs under 4 option sets. first: 256 first bytes x 9 tails, one call. regr: the repaired FWjson-1 inputs. deep: subprocess (SetMaxStack 64MB) nesting cases. non-trivial = input longer than one byte; distinct by (stream, first byte, per-call mode and outcome class, min(length,40)) resp. (Go type, options, length/4, depth) for enc and by name for regr/deep")
 	cv := vh.NewCases(*cases, "From Coq Require Import List NArith ZArith.\nFrom Verif Require Import Wire.Item Wire.Json Wire.JsonCorr.\nImport ListNotations.", "case", "mismatches", 60)
 	c := &ctx{r: r.Fork(), sum: sum, cv: cv}
 	docs := c.encStream(*nEnc)
 	c.r = r.Fork()
 	c.validStream(docs, *nValid)
+	c.r = r.Fork()
+	c.handStream(*nHand)
 	c.r = r.Fork()
 	c.mutStream(docs, *nMut)
 	c.sepStream(docs, *nMut/3+20)
